@@ -3,6 +3,8 @@
 //!   txt-decode <hex>
 //!   txt-decode-unique <hex>
 //!   txt-get <n> (<keyhex> <valopt>)* <keyhex>
+//!   txt-getters <n> (<keyhex> <valopt>)* <keyhex>   -> <get_property: 0|1> <get_property_val: none|novalue|val <hex>>
+//!                                                    <get_property_val_str: none|str <hex|->|str ?>   (`?`: the value is not ASCII)
 use crate::util::*;
 use mdns_sd::verif::info;
 use mdns_sd::{IntoTxtProperties, ServiceInfo, TxtProperty};
@@ -126,6 +128,28 @@ pub fn exec(op: &str, t: &mut Toks) -> Option<String> {
                 Some(None) => "none".to_string(),
                 Some(Some((k, v))) => format!("some {} {}", hex(&k), opt_hex(&v)),
             })
+        }
+        "txt-getters" => {
+            let ps = read_props(t)?;
+            let key = t.string()?;
+            let props = mk_props(&ps)?;
+            let r = guarded(move || {
+                let tp = props.into_txt_properties();
+                let gp = tp.get(&key).is_some();
+                let gv = match tp.get_property_val(&key) {
+                    None => "none".to_string(),
+                    Some(None) => "novalue".to_string(),
+                    Some(Some(v)) => format!("val {}", hex(v)),
+                };
+                let non_ascii = tp.get(&key).and_then(|p| p.val().map(|v| v.iter().any(|b| *b >= 0x80))).unwrap_or(false);
+                let gs = match tp.get_property_val_str(&key) {
+                    None => "none".to_string(),
+                    Some(_) if non_ascii => "str ?".to_string(),
+                    Some(s) => format!("str {}", hex(s.as_bytes())),
+                };
+                format!("{} {} {}", b(gp), gv, gs)
+            });
+            Some(r.unwrap_or_else(|| "panic".to_string()))
         }
         _ => None,
     }
@@ -342,6 +366,7 @@ pub fn generate(r: &mut Rng, tier: &str, emit: &mut dyn FnMut(String)) {
                     gen_key(r, true)
                 };
                 emit(format!("txt-get {} {}", props_toks(&ps), hex(&key)));
+                emit(format!("txt-getters {} {}", props_toks(&ps), hex(&key)));
             }
         }
     }
